@@ -97,8 +97,8 @@ var props = map[string]*propCfg{
 	},
 	"C13": {
 		Title:    "output ordering is a deterministic function of the aggregated data (order-independence clauses)",
-		Quick:    tierCfg{Runs: 1000, Chunk: 32, DetRuns: 24, ShrinkSec: 90},
-		Thorough: tierCfg{Runs: 50000, Chunk: 400, DetRuns: 128, ShrinkSec: 300},
+		Quick:    tierCfg{Runs: 1000, Chunk: 32, RaceRuns: 48, DetRuns: 24, ShrinkSec: 90},
+		Thorough: tierCfg{Runs: 50000, Chunk: 400, RaceRuns: 3000, DetRuns: 128, ShrinkSec: 300},
 		Rule: "one evaluation = one scenario: a multiset of 2-8 (key, count) drawn from pools that stress the comparators (numbers in several spellings, weekday/month names and abbreviations, dates in several layouts, text, mixtures), one of histo/table/bars and one sort mode of {text, numeric, contextual, date, value} x {none, :asc, :desc, :reverse}, run in-process under 4-6 variants that change only the map-iteration salt, the arrival order of lines, schedule and worker count, division among files and read latencies (number of intermediate renders on the fake clock), plus one run with the reversed and one with the equivalent spelling; the row/column label sequences of the final snapshots must agree (or mirror); one scenario in three draws clean key families (distinct integers/decimals, weekday/month names, dates of one layout, distinct totals) with independent modes for rows and columns and compares the displayed order with the documented one; " +
 			"distinct_nontrivial = distinct combined schedule hashes among scenarios with >= 2 goroutines runnable at >= 1 decision",
 		Real:  []string{"main.cliMain + urfave/cli", "cmd/histo|tabulate|bargraph", "cmd/helpers/sorting.go", "pkg/aggregation/sorting", "pkg/aggregation", "pkg/multiterm renderers", "pkg/extractor + batchers"},
@@ -107,8 +107,8 @@ var props = map[string]*propCfg{
 	},
 	"C03": {
 		Title:    "final aggregates equal the reference aggregation, independent of parallelism",
-		Quick:    tierCfg{Runs: 1200, Chunk: 40, DetRuns: 24, ShrinkSec: 90},
-		Thorough: tierCfg{Runs: 60000, Chunk: 400, DetRuns: 128, ShrinkSec: 300},
+		Quick:    tierCfg{Runs: 1200, Chunk: 40, RaceRuns: 96, DetRuns: 24, ShrinkSec: 90},
+		Thorough: tierCfg{Runs: 60000, Chunk: 400, RaceRuns: 6000, DetRuns: 128, ShrinkSec: 300},
 		Rule: "one evaluation = one scenario (a corpus of 0-60 lines `w1 w2 n` with tricky words, noise and optionally non-numeric increments; one of histo/table/heatmap/spark/bars/reduce/analyze or a {.}-keyed histogram, with drawn key templates, sort flags and an optional ignore expression) executed in-process under 3-5 variants that must not matter: --workers/--batch/--batch-buffer/--readers, permuted file arguments, the same lines divided among 1-4 files (contiguous or scattered), plain/gzip with -z, stdin, schedule, read chunking/latency (number of intermediate renders on the fake clock), map-iteration salt; exit status, CSV bytes and snapshot stdout must agree across variants, and the CSV parsed by a strict RFC 4180 parser must equal an independent fold (stdlib regexp + the world's own template evaluator); " +
 			"distinct_nontrivial = distinct combined schedule hashes among scenarios with >= 1 matching line and >= 2 goroutines runnable at >= 1 decision",
 		Real:  []string{"main.cliMain + urfave/cli", "cmd/histo|tabulate|heatmap|spark|bargraph|reduce|analyze", "cmd/helpers", "pkg/aggregation", "pkg/csv", "pkg/multiterm renderers", "pkg/extractor + batchers", "pkg/expressions", "compress/gzip"},
